@@ -249,6 +249,10 @@ SKEL = {
     "filter_args": ("{{ x | default: y | append: a.b.c }}{{ c | replace: d, x | size }}{% assign z = xs | join: y | append: d %}{{ z }}", True),
     # o and z are read only through ranges that are filter arguments (the oracle matches by name, not by position)
     "filter_arg_range": ("{{ x | default: (o..z) | join: d }}{% assign q = y | default: (o..2) %}{{ q | first }}{% echo c | default: (1..z) | size %}{% for i in (1..k) %}{{ i }}{% endfor %}", True),
+    # the loop variable has the name of a variable read by the loop's own expression (source, limit, offset, cols): those are
+    # read before the loop variable exists, i.e. from the render arguments
+    "loop_var_is_source": ("{% for site in site.pages %}[{{ site }}]{% endfor %}{% for k in xs limit: k %}{{ k }}{% endfor %}{% tablerow z in ys cols: z %}{{ z }}{% endtablerow %}"
+                           "{% for o in xs offset: o %}{{ o }}{% endfor %}{% for page in page %}{{ page }}{% endfor %}", True),
     "nested_path": ("{{ a[b.c] }}{{ a[y].c }}{{ h[x][y] }}{{ xs[0] }}{{ xs.first }}{{ a['d'] }}{{ h[a.d].Y }}", True),
     "ternary": ("{{ x if f else y }}{{ c | upcase if g else d | downcase || append: x }}{% assign q = y if x else c %}{{ q }}", False),
     "for_args": ("{% for i in xs limit: k offset: o %}{{ i }}{{ y }}{% else %}{{ x }}{% endfor %}{% for i in xs reversed %}{{ forloop.index0 }}{% endfor %}", False),
